@@ -12,6 +12,18 @@ PROFILES = {
     # property -> list of (weight, profile dict)
     "C01": [(6, _p(world="mem", kinds=MF)), ],
     "C02": [(6, _p(world="mem", kinds=MF, p_latency=0.8, p_no_ckpt_script=0.4)), ],
+    "C03": [(6, _p(world="mem", kinds=["hb_stopping", "hb_stopping", "hb_rush_stopping"], p_fault_free=0.6, p_ties=0.2,
+                   fault_kinds=["crash"], max_trials=25)), ],
+    "C04": [(6, _p(world="mem", kinds=["hb_promotion", "hb_promotion", "hb_pasha", "hb_cost_promotion", "hb_rush_promotion"],
+                   p_fault_free=0.6, p_not_honour=0.15, p_no_maxres=0.3, p_ties=0.15, fault_kinds=["crash"], p_nodelay_false=0.05)), ],
+    "C05": [(6, _p(world="mem", kinds=["sync_hb", "sync_hb", "sync_hb_custom", "sync_hb_custom", "dehb"], p_fault_free=0.4,
+                   fault_kinds=["crash"], p_ties=0.15, p_tiny_space=0.2, p_nodelay_false=0.05)), ],
+    "C06": [(6, _p(world="mem", kinds=MF, p_tiny_space=0.35, p_pte=0.7, p_fault_free=0.5)), ],
+    "C12": [(6, _p(world="mem", kinds=MF, p_noreport=0.08, p_callback_raise=0.2, p_wait=0.4,
+                   stop_fields=["max_num_trials_started", "max_num_trials_finished", "max_num_trials_completed",
+                                "max_num_evaluations", "max_wallclock_time", "max_metric_value", "min_metric_value", "max_cost"])), ],
+    "C13": [(6, _p(world="mem", kinds=MF, p_fault_free=0.0, p_latency=0.5)), ],
+    "C17": [(6, _p(world="mem", kinds=MF, p_extra=0.7, p_callback_raise=0.1)), ],
 }
 
 
